@@ -61,19 +61,28 @@ no_exc = raised is None
 '''
 
 PROG_RULES = '''
-from edgegraph.structure import Vertex, DirectedEdge
+from edgegraph.structure import Vertex, DirectedEdge, UnDirectedEdge
 from edgegraph.structure.universe import UniverseLaws
-if with_wl:
+if with_wl == 1:
     wl = {Vertex: {Vertex: DirectedEdge}}
+    want = {Vertex: {Vertex: DirectedEdge}}
+elif with_wl == 2:
+    wl = {}
+    want = {}
 else:
     wl = None
+    want = None
 L = UniverseLaws(edge_whitelist=wl, mixed_links=b1, cycles=b2, multipath=b3, multiverse=b4)
+def view():
+    if L.edge_whitelist is None:
+        return None
+    return {k: dict(v) for k, v in L.edge_whitelist.items()}
 read_ok = (L.mixed_links is b1) and (L.cycles is b2) and (L.multipath is b3) and (L.multiverse is b4)
-if with_wl:
-    got = {k: dict(v) for k, v in L.edge_whitelist.items()}
-    read_ok = read_ok and (got == {Vertex: {Vertex: DirectedEdge}})
-else:
-    read_ok = read_ok and (L.edge_whitelist is None)
+read_ok = read_ok and (view() == want)
+# "cannot be changed afterwards": not through the caller's own dictionary either
+if wl is not None:
+    wl[Vertex] = {Vertex: UnDirectedEdge}
+    read_ok = read_ok and (view() == want)
 rejected = 0
 for name in ("edge_whitelist", "mixed_links", "cycles", "multipath", "multiverse"):
     try:
@@ -117,7 +126,7 @@ def collect_new(B, out, unis, laws, tag):
 
 def scenario(B, p):
     if p["mode"] == "rules":
-        env = {"with_wl": B.choice("with_wl", 2) == 1}
+        env = {"with_wl": B.choice("with_wl", 3)}
         for b in ("b1", "b2", "b3", "b4"):
             env[b] = B.bool(b)
         out = B.run(PROG_RULES, env)
